@@ -310,3 +310,39 @@ func VerifC12ControlManager() {
 	got, ok := cm.GetByID(other)
 	zzverif.Assert(ok == (holder[other] != nil) && got == holder[other], "C12.cm.other-id-untouched")
 }
+
+// VerifC04LoginHistory: a history of logins on one server; an earlier exempted (internal)
+// login must not change what later peers need to present.
+func VerifC04LoginHistory() {
+	ver := &zzVerifier{}
+	svr := zzService(ver, zzNoPlugins())
+	n := zzverif.Param("logins", 2)
+	for i := 0; i < n; i++ {
+		ver.loginOK = zzverif.Bool("verifierAccepts")
+		internal := zzverif.Bool("internal")
+		conn := &zzConn{name: "ctl"}
+		login := &msg.Login{RunID: []string{"r1", "r2", "r3"}[i], User: "u", // distinct sessions (re-login ordering is C12's subject)
+			ClientSpec: msg.ClientSpec{AlwaysAuthPass: zzverif.Bool("alwaysAuthPass")}}
+		before := ver.loginCalls
+		err := svr.RegisterControl(conn, login, internal)
+		exempt := internal && login.ClientSpec.AlwaysAuthPass
+		if err == nil {
+			zzverif.Assert(ver.loginOK || exempt, "C04.history.session-only-for-verified-peer")
+			if !exempt {
+				zzverif.Assert(ver.loginCalls == before+1, "C04.history.configured-verifier-consulted")
+			}
+			if i > 0 {
+				zzverif.Reach("C04.history.later-login-accepted")
+			}
+		} else if i > 0 {
+			zzverif.Reach("C04.history.later-login-refused")
+		}
+		// work connections and pings of the session are judged by the same rule
+		if ctl, ok := svr.ctlManager.GetByID(login.RunID); ok && err == nil && !exempt {
+			ver.workOK = false
+			wc := &zzConn{name: "w"}
+			zzverif.Assert(svr.RegisterWorkConn(wc, &msg.NewWorkConn{RunID: login.RunID}) != nil, "C04.history.unverified-workconn-refused")
+			_ = ctl
+		}
+	}
+}
